@@ -164,14 +164,14 @@ Example C06_example_predicate :
 Proof. vm_compute. reflexivity. Qed.
 
 (** the unchanged setTimeoutList (flag on): a finished (FAILURE) request is announced as timed out *)
-Definition only_keeps_failed : Defects := Build_Defects true false false false false false false false false false.
+Definition only_keeps_failed : Defects := Build_Defects true false false false false false false false false false false.
 Theorem C06_timeout_keeps_failed_refuted :
   prop_on_model 6 only_keeps_failed w2 q2 [IBlock [req 1 2 1 3]; IBlock [rcp 1 2 1 2]; IBlock []; IBlock []] = Some false.
 Proof. vm_compute. reflexivity. Qed.
 
 (** the unchanged addToTimeoutList (flag on): a group registered at a height whose list was emptied
     never times out *)
-Definition only_empty_head : Defects := Build_Defects false false false false true false false false false false.
+Definition only_empty_head : Defects := Build_Defects false false false false true false false false false false false.
 Definition hist_empty_head : list item :=
   [IBlock [req 1 2 1 3]; IBlock [rcp 1 2 1 1]; IBlock [greq 1 3 1 1 7 1]; IBlock []; IBlock []].
 Theorem C06_tl_empty_head_refuted :
@@ -196,7 +196,7 @@ Proof. split; [|split]; vm_compute; reflexivity. Qed.
     is never registered, so it never times out *)
 Definition w_un : world :=
   Build_world [Build_svc_info 0 1 true true true []; Build_svc_info 0 2 false true true []] [] false.
-Definition only_unordered : Defects := Build_Defects false false false true false false false false false false.
+Definition only_unordered : Defects := Build_Defects false false false true false false false false false false false.
 Theorem C06_unordered_refuted :
   prop_on_model 6 only_unordered w_un (Build_query [(1, 2, 1)] [] [5] 2) [IBlock [req 1 2 1 2]; IBlock []; IBlock []; IBlock []] = Some false.
 Proof. vm_compute. reflexivity. Qed.
@@ -205,7 +205,7 @@ Proof. vm_compute. reflexivity. Qed.
     the transaction manager recorded "no timeout", and the destination hub's notice does not cancel it *)
 Definition w_hub : world :=
   Build_world [Build_svc_info 0 1 true true true []; Build_svc_info 1 1 true true true []] [(1, true)] false.
-Definition only_interhub : Defects := Build_Defects false false false false false false false false true false.
+Definition only_interhub : Defects := Build_Defects false false false false false false false false true false false.
 Theorem C06_interhub_timeout_refuted :
   option_map (map o_st) (run only_interhub w_hub (Build_query [(1, 2, 1)] [] [] 2) state_init
      [IBlock [req 1 2 1 3]; IBlock [OIbtp (Build_ibtp 1 2 1 0 0%Z None 1) true]; IBlock []; IBlock []])
